@@ -147,12 +147,8 @@ theorem consumes : ∀ f : Nat,
       simp only [atoms] at h
       split at h
       · rename_i s r
-        cases hi : intLeaf s with
-        | none => simp only [hi] at h; cases h
-        | some t =>
-          simp only [hi] at h
-          have := hAt _ _ _ _ h
-          simp at this ⊢; omega
+        have := hAt _ _ _ _ h
+        simp at this ⊢; omega
       · have := hAt _ _ _ _ h
         simp at this ⊢; omega
       · rename_i r
@@ -507,9 +503,7 @@ theorem no_fuel : ∀ f : Nat,
       simp only [atoms]
       split
       · rename_i s r
-        cases intLeaf s with
-        | none => simp
-        | some t => exact hAt _ _ (by simp at hf; omega)
+        exact hAt _ _ (by simp at hf; omega)
       · exact hAt _ _ (by simp at hf; omega)
       · rename_i r
         cases hp : parseExp f r with
@@ -534,14 +528,21 @@ theorem no_fuel : ∀ f : Nat,
         all_goals first | (rename_i heq; cases heq; done) | simp
 
 /-- **The fuel of `parseToks` is always enough.** -/
-theorem parseToks_no_fuel (toks : List Tok) : parseToks toks ≠ .error .fuel := by
-  unfold parseToks
+theorem parseToksRaw_no_fuel (toks : List Tok) : parseToksRaw toks ≠ .error .fuel := by
+  unfold parseToksRaw
   have := (no_fuel (parseFuel toks)).1 toks (by simp [parseFuel])
   cases hp : parseExp (parseFuel toks) toks with
   | error e => simp only; intro h; injection h with h; exact fuel_of_eq hp this h
   | ok p =>
     obtain ⟨t, rest⟩ := p
     cases rest <;> simp
+
+theorem parseToks_no_fuel (toks : List Tok) : parseToks toks ≠ .error .fuel := by
+  unfold parseToks
+  have := parseToksRaw_no_fuel toks
+  cases hp : parseToksRaw toks with
+  | error e => simp only; intro h; injection h with h; exact this (by rw [hp, h])
+  | ok t => simp only; split <;> simp
 
 /-- **Totality of the parser model**: every token sequence is answered with a tree or with `reject`. -/
 theorem parseToks_total (toks : List Tok) : (∃ t, parseToks toks = .ok t) ∨ parseToks toks = .error .reject := by
